@@ -1,17 +1,40 @@
+import os, re
+
+_ROOT = os.path.dirname(os.path.dirname(os.path.dirname(os.path.abspath(__file__))))
+
+
+def _not_in_grammar():
+    """commands of `dispatch` (table regenerated from session/mod.rs on every run) that the harness grammar does not
+    generate: listed under `uncovered`"""
+    try:
+        gen = open(os.path.join(_ROOT, "lean/BsVerif/Gen/DapDispatch.lean")).read()
+        table = re.findall(r'"([A-Za-z]+)"', re.search(r"def commands : List String := \[(.*?)\]", gen, re.S).group(1))
+        src = open(os.path.join(_ROOT, "harness/src/props/c12.rs")).read()
+        grammar = re.findall(r'"([A-Za-z]+)"', re.search(r"const COMMANDS: &\[&str\] = &\[(.*?)\];", src, re.S).group(1))
+        return [f"command `{c}` of dispatch is never generated" for c in table if c not in grammar]
+    except Exception as e:  # the table does not exist before the first run
+        return [f"(command table not readable: {e})"]
+
+
 CONFIG = {
     "lean_modules": ["BsVerif.Props.C12"],
     "audit": "BsVerif/Audit/C12.lean",
     "bsv_cmd": "c12",
-    "technique": "Lean 4 proofs over a writer-interleaving model and a session/handler-skeleton model of the DAP adapter + acceptor correspondence with the real DebugSession driven in-process over a mock transport + independent wire oracle",
-    "level_text": "Theorems for ALL request histories (induction over the history) and ALL schedules of the three transport writers (induction over the schedule) about hand-written executable models of DebugSession::run/dispatch/drain_events and of the seq-allocation/transport-write steps; the session model is tied to the real adapter on every run by replaying grammar-derived request histories (valid, missing, ill-typed, absent arguments; repeated, out of order) against the real DebugSession in forked workers and comparing the canonicalised wire per request; the writer model is tied by reconstructing the schedule from the recorded allocation log and comparing sequence numbers in wire order; an independent wire checker re-decides the five clauses.",
-    "level_note": "Full statements C12_one_response, C12_seq_is_wire_order, C12_silent_after_terminated are proved for the repaired code (the three defects of the code as found - `continue` answered twice, sequence numbers taken before the transport lock, `initialized` and forwarder output after `terminated` - are fixed in the repository: known_findings.txt `fixed:` lines; the former counterexamples stay as corpus replays). Debuggee outcomes (stop/exit, thread counts, evaluate result) enter the model as observed hints. Scheduler = arbitrary interleaving of atomic steps, a writer scheduled while another holds the transport lock is blocked (the real scheduler is only sampled). The forwarders' part of `nothing after terminated` is proved on a latch model of the writers that is read from the code (tied textually by the table extractor, not by the correspondence run) and re-decided by the wire oracle; `no output lost` is decided by the wire oracle only.",
-    "runs": {"quick": [{"n": 280}], "thorough": [{"n": 4000, "timeout": 6000}]},
+    "technique": "Lean 4 proofs over a writer-interleaving model and a session/handler-skeleton model of the DAP adapter (all 43 commands of dispatch, cancellation bookkeeping, thread-cache diff, progress ids) + acceptor correspondence with the real DebugSession driven in-process over a mock transport + independent wire oracle",
+    "level_text": "Theorems for ALL request histories (induction over the history, invariants linking the session state to wire monitors) and ALL schedules of the three transport writers (induction over the schedule) about hand-written executable models of DebugSession::run/dispatch/drain_events/consume_cancellation/refresh_threads_with_events and of the seq-allocation/transport-write steps; the session model is tied to the real adapter on every run by replaying grammar-derived request histories (every command of dispatch with valid, missing, ill-typed, absent arguments; repeated, out of order, pipelined behind a running request; in every session phase; cancel ahead of / after / of non-existent requests and of progress ids; stepping over thread creation) against the real DebugSession in forked workers and comparing the canonicalised wire per request (thread ids and progress ids included); the writer model is tied by reconstructing the schedule from the recorded allocation log and comparing sequence numbers in wire order; an independent wire checker re-decides the clauses.",
+    "level_note": "Full statements C12_one_response, C12_seq_is_wire_order, C12_silent_after_terminated are proved over the 44-command model for the repaired code (the three defects of the code as found - `continue` answered twice, sequence numbers taken before the transport lock, `initialized` and forwarder output after `terminated` - are fixed in the repository: known_findings.txt `fixed:` lines; the former counterexamples stay as corpus replays). Partial: C12_thread_events is FALSE of the code (counterexample proved in Lean and replayed on the real adapter: known_findings.txt, corpus/C12); proved is the _partial version under a named hypothesis. The forwarders' part of `nothing after terminated` is proved on a latch model of the writers that is read from the code (tied textually by the table extractor, not by the correspondence run) and re-decided by the wire oracle; `no output lost` is decided by the wire oracle only. Debuggee / debugger-library outcomes (stop/exit, the thread list the debugger reports to a refresh, success of a fallible debugger call, number of frames without line info) enter the model as observed hints; what the adapter owes (responses, thread events from the cache diff, cancellation, progress ids, lifecycle) is computed by the model. Scheduler = arbitrary interleaving of atomic steps, a writer scheduled while another holds the transport lock is blocked (the real scheduler is only sampled). A quick run samples about a third of the (command, phase) cells: the distribution is in correspondence.distribution (`cp.<command>.<phase>`, `cm.<command>.<mutation>`, `cmd.<command>` = 0 for a command not sent in this run).",
+    "runs": {"quick": [{"n": 420}], "thorough": [{"n": 5000, "timeout": 9000}]},
     "shrinkable": True,
     "assumptions": [
         "the three writers' steps `lock+next_seq` and `write_message+unlock` are atomic and the only accesses to the counter/transport (read from session/mod.rs; the extractor checks that `next_seq` is the only `fetch_add` and that every call site locks the transport first)",
-        "debuggee behaviour (stop reason, exit, number of thread start/exit events, whether `acc` can be evaluated) is an input of the session model, taken from the observed wire",
+        "debuggee behaviour (stop reason, exit, the thread list the debugger returns to refresh_threads_with_events - read through the add-only `verif` thread probe, or from the `threads` response when the probe did not fire -, whether a fallible debugger call succeeded, how many frames needed a disassembly source) is an input of the session model, taken from the observed run",
         "the mock transport never fails a write (transport errors end the session by design: `drain_events()?` in run)",
+        "a session whose worker stalls (no answer for 40 s) is run a second time; only a stall that repeats is reported as an adapter hang",
     ],
-    "uncovered": ["attach sessions", "restart / restartFrame / goto / setVariable / memory / disassemble handlers", "cancel requests (consume_cancellation)", "malformed envelopes (not well-framed: outside the property)"],
+    "uncovered": ["attach to a live process (attach is generated with missing / ill-typed / absent arguments and with a pid that does not exist)",
+                  "runInTerminal with a program that exists is only generated in sessions without a debuggee (the adapter process must have no other children)",
+                  "stop reasons other than entry/breakpoint/step/pause/goto/restart/exception-by-SIGTERM (no watchpoint delivery on this VM)",
+                  "DEBUGGER_RESPONSE_TIMEOUT / MEMORY_READ_TIMEOUT branches (no 5 s stalls are provoked)",
+                  "malformed envelopes (not well-framed: outside the property)"] + _not_in_grammar(),
     "trivial_answers": ["ok", "-", "bad-op", "", "closed"],
 }
